@@ -46,6 +46,7 @@ func expired(w *World, e *mhub2types.SendToExternal, now time.Time) bool {
 // C04 — an outgoing transfer is in exactly one place at any time.
 type C04 struct {
 	refundedSeen map[string]bool
+	hashIDs      map[string]map[string]bool // inbound hash -> transfers (chain/id) ever seen carrying it
 	BaseOracle
 	extDone       map[string]string // chain/id -> batch key under which the external chain executed the transfer
 	maxID         map[string]uint64
@@ -84,7 +85,34 @@ func (o *C04) Init(w *World) {
 	o.userTx = map[string]string{}
 }
 
+// noteHashes remembers, at every observation point, which transfers carry which inbound hash.
+func (o *C04) noteHashes(s *Snap) {
+	if o.hashIDs == nil {
+		o.hashIDs = map[string]map[string]bool{}
+	}
+	for _, ch := range Chains {
+		note := func(e *mhub2types.SendToExternal) {
+			if e.TxHash == "" || strings.HasPrefix(e.TxHash, "#") {
+				return
+			}
+			if o.hashIDs[e.TxHash] == nil {
+				o.hashIDs[e.TxHash] = map[string]bool{}
+			}
+			o.hashIDs[e.TxHash][ch+"/"+strconv.FormatUint(e.Id, 10)] = true
+		}
+		for _, e := range s.Pool[ch] {
+			note(e)
+		}
+		for _, b := range s.Batches[ch] {
+			for _, e := range b.Transactions {
+				note(e)
+			}
+		}
+	}
+}
+
 func (o *C04) place(w *World, s *Snap, at string) bool {
+	o.noteHashes(s)
 	for _, ch := range Chains {
 		w.St.Check("C04:one-place")
 		if len(s.PoolDup[ch]) > 0 {
@@ -285,6 +313,41 @@ func (o *C04) AfterCommit(w *World) {
 			o.refundedSeen[h] = true
 		}
 	}
+	// a transfer reported as refunded is nowhere else: while its hash speaks for it alone it must not sit in
+	// the pool or in a batch any more
+	if o.hashIDs == nil {
+		o.hashIDs = map[string]map[string]bool{}
+	}
+	type where struct{ key, place string }
+	pending := map[string][]where{}
+	for _, ch := range Chains {
+		note := func(e *mhub2types.SendToExternal, place string) {
+			if e.TxHash == "" || strings.HasPrefix(e.TxHash, "#") {
+				return
+			}
+			k := ch + "/" + strconv.FormatUint(e.Id, 10)
+			if o.hashIDs[e.TxHash] == nil {
+				o.hashIDs[e.TxHash] = map[string]bool{}
+			}
+			o.hashIDs[e.TxHash][k] = true
+			pending[e.TxHash] = append(pending[e.TxHash], where{k, place})
+		}
+		for _, e := range t.Cur.Pool[ch] {
+			note(e, "the pool")
+		}
+		for _, b := range t.Cur.Batches[ch] {
+			for _, e := range b.Transactions {
+				note(e, "a batch")
+			}
+		}
+	}
+	for _, h := range sortedKeys(pending) {
+		if all[h] == mhub2types.TX_STATUS_REFUNDED && len(o.hashIDs[h]) == 1 {
+			w.St.Check("C04:refunded-is-gone")
+			w.Fail("C04", "one-place", "refunded-and-pending", fmt.Sprintf("transfer %s (hash %s) is reported REFUNDED and is still in %s", pending[h][0].key, h, pending[h][0].place))
+			return
+		}
+	}
 	for _, h := range sortedKeys(o.refundedSeen) {
 		w.St.Check("C04:refunded-final")
 		if got, ok := all[h]; !ok || got != mhub2types.TX_STATUS_REFUNDED {
@@ -423,6 +486,9 @@ func (o *C10) check(w *World, at string) {
 			if k > 100 {
 				k = 100
 				w.St.Probe("more-than-100-available")
+				if fees[0].BitLen() > 128 && fees[len(fees)-1].BitLen() <= 128 {
+					w.St.Probe("cap-cuts-with-fees-beyond-2^128")
+				}
 			}
 			var got []*big.Int
 			for _, tx := range b.Transactions {
@@ -612,7 +678,13 @@ func (o *C13) gone(w *World, prev, cur *Snap, at string) {
 	}
 }
 
-func (o *C13) AfterBegin(w *World) { t := w.T(); o.gone(w, t.Prev, t.Cur, "A") }
+func (o *C13) AfterBegin(w *World) {
+	t := w.T()
+	o.gone(w, t.Prev, t.Cur, "A")
+	if !w.Stopped() {
+		o.observedHeight(w, t.Prev, t.Cur, false)
+	}
+}
 func (o *C13) AfterTx(w *World, r *TxResult) {
 	t := w.T()
 	for _, ch := range Chains {
@@ -623,8 +695,42 @@ func (o *C13) AfterTx(w *World, r *TxResult) {
 			}
 		}
 	}
+	o.observedHeight(w, t.Prev, t.Cur, false)
 }
-func (o *C13) AfterEnd(w *World) { t := w.T(); o.gone(w, t.PreEnd, t.Cur, "C") }
+func (o *C13) AfterEnd(w *World) {
+	t := w.T()
+	o.gone(w, t.PreEnd, t.Cur, "C")
+	if w.Stopped() {
+		return
+	}
+	o.observedHeight(w, t.PreEnd, t.Cur, true)
+}
+
+// observedHeight: the height batches are timed out against is the height of the last APPLIED event of that
+// chain - it moves only when an event is applied, and then to that event's height (never a projection, never
+// the height carried by a claim that has not been accepted).
+func (o *C13) observedHeight(w *World, prev, cur *Snap, endBlock bool) {
+	t := w.T()
+	for _, ch := range Chains {
+		w.St.Check("C13:observed-height")
+		was, is := prev.ObsH[ch].ExternalHeight, cur.ObsH[ch].ExternalHeight
+		if was == is {
+			continue
+		}
+		ok := false
+		if endBlock {
+			for _, a := range t.Applied {
+				if a.Chain == ch && a.Event != nil && a.Event.GetExternalHeight() == is {
+					ok = true
+				}
+			}
+		}
+		if !ok {
+			w.Fail("C13", "observed-height", ch, fmt.Sprintf("%s: the last observed external height moved %d -> %d although no event with that height was applied in this step", ch, was, is))
+			return
+		}
+	}
+}
 
 // ------------------------------------------------------------------------------------------------
 // C12 — cancellation and expiry refund exactly, once, to the right party.
